@@ -95,7 +95,7 @@ Fixpoint process_bruns (o : opts) (sizes : list (name * N)) (prev : option name)
       match lookup c sizes with
       | None => Err E_UNKNOWN_CHROM
       | Some len =>
-          (* a chromosome whose run reappears is refused (/repo 6b10d42): checked in start_processing
+          (* a chromosome whose run reappears is refused (/repo 4ea85d7): checked in start_processing
              after the size lookup and before an id is handed out *)
           match lookup c ids with
           | Some _ => Err E_CHROM_SPLIT
@@ -138,7 +138,7 @@ Definition bb_schema (autosql : option (list N)) : res (list N * N) :=
 Definition bb_write_gen (sweep : list bchrom -> summary)
            (zoom_part : list bchrom -> summary -> N -> N -> res (list N * list zoom_header))
            (o : opts) (sizes : list (name * N)) (autosql : option (list N)) (input : list bitem) : res (list N) :=
-  (* bbiwrite.rs check_options, before anything is written (/repo 67ae335) *)
+  (* bbiwrite.rs check_options, before anything is written (/repo ce12600) *)
   if (o_bs o <? 2) || (o_ips o <? 1) then Err E_BED_OPTIONS else
   do (sql, fc) <- bb_schema autosql;
   do (ids, outs) <- bb_collect o sizes input;
